@@ -514,6 +514,62 @@ pub fn is_finished(tid: usize) -> bool {
     lock().tasks[tid].status == Status::Finished
 }
 
+/// Register a task for a thread that the caller spawns itself (scoped threads).  The new
+/// thread must call `task_entry(tid)` first and keep the returned guard alive while it runs; the
+/// spawner calls `task_spawned(tid, thread)` once the OS thread exists.
+pub fn register_task(name: Option<String>) -> usize {
+    if !enabled() {
+        harness_fail("spawn through the seam without a plan is not supported");
+    }
+    let mut g = lock();
+    let tid = g.tasks.len();
+    let prio = splitmix(&mut g.rng) | (1 << 40);
+    g.tasks.push(Task {
+        name: name.unwrap_or_else(|| format!("t{}", tid)),
+        status: Status::Runnable,
+        thread: None,
+        pending: "thread.start".into(),
+        pending_res: String::new(),
+        prio,
+        timed: false,
+        timed_out: false,
+    });
+    tid
+}
+
+pub struct TaskGuard(#[allow(dead_code)] FinishGuard);
+
+pub fn task_entry(tid: usize) -> TaskGuard {
+    TID.with(|t| t.set(Some(tid)));
+    wait_for_baton(tid);
+    {
+        let mut g = lock();
+        let (step, nrun) = (g.step, g.last_nrun);
+        let _ = writeln!(g.trace, "E\t{}\t{}\t{}\tthread.start", step, tid, nrun);
+        g.tasks[tid].pending.clear();
+    }
+    TaskGuard(FinishGuard(tid))
+}
+
+pub fn task_spawned(tid: usize, thread: Thread) {
+    {
+        let mut g = lock();
+        g.tasks[tid].thread = Some(thread);
+    }
+    point("", &format!("thread.spawn {tid}"));
+}
+
+/// Block (in the simulator) until task `tid` has finished.
+pub fn join_task(tid: usize) {
+    loop {
+        point("", &format!("thread.join {tid}"));
+        if is_finished(tid) {
+            return;
+        }
+        block(JOIN_RES_BASE + tid as u64, "thread.join.blocked");
+    }
+}
+
 pub fn spawn<F: FnOnce() + Send + 'static>(name: Option<String>, stack: Option<usize>, f: F) -> std::io::Result<usize> {
     if !enabled() {
         harness_fail("spawn through the seam without a plan is not supported");
